@@ -157,7 +157,7 @@ def stepWith (l : Line) : Step Unit :=
             nontrivial := !m.isEmpty && m.any (fun p => p.2 > 0) && m.length < (Spec.C11.firstOccs s).length
             spec := if Spec.C11.dupIdxCheck s r then none else some "duplicatewithindex:first-index" }
       | _ => bad "result"
-  | "union", [nv] =>
+  | "union", [nv] | "unionshared", [nv] =>
     match decNested c nv with
     | none => bad "args"
     | some n =>
